@@ -213,7 +213,7 @@ func c05Run(c *mon.Ctx) {
 		c05Exercise(c, "random trees", nb.Describe(), na.Describe(), b, a)
 		c.Count("pair " + na.Kind + ">" + nb.Kind)
 		c.NonTrivial(uint64(mon.NewH().S(na.Kind).S(nb.Kind).I(int64(i))))
-		if i < 64 && i%16 == c.Shard && c.WantSample() {
+		if c.WantSample() {
 			c.Sample(c05Case{Family: "random trees", A: na.Describe(), B: nb.Describe(), Op: fmt.Sprintf("all %d operations, both directions", len(objOps))})
 		}
 	}
